@@ -5,7 +5,7 @@
    against the implementation is the same code (exact rationals). *)
 From Coq Require Import QArith List Bool Arith Permutation.
 From LV Require Import Cluster.Nwk Cluster.NwkProofs Cluster.Upgma Cluster.UpgmaProofs
-  Cluster.UpgmaRecover Cluster.UpgmaClades Cluster.Neighbor Cluster.NeighborProofs Cluster.NeighborRecover
+  Cluster.UpgmaRecover Cluster.UpgmaClades Cluster.UpgmaPaths Cluster.Neighbor Cluster.NeighborProofs Cluster.NeighborRecover
   Cluster.TreeBuildExec Cluster.TreeBuildProofs.
 Import ListNotations.
 Local Open Scope nat_scope.
@@ -93,6 +93,17 @@ Theorem C09_upgma_recovers_clades :
               clades_eqb (nt_of_tree (tree_of_utree T)) (nt_of_tree t) = true.
 Proof. exact upgma_recovers_clades. Qed.
 Print Assumptions C09_upgma_recovers_clades.
+
+(* and its path sums reproduce the input distances (checker bit 5 for UPGMA) *)
+Theorem C09_upgma_recovers_pathsums :
+  forall (T : utree) (d : nat -> nat -> Q) (n : nat),
+    NoDup (uleaves T) -> Permutation (uleaves T) (seq 0 n) -> mono T ->
+    (forall x y, In x (uleaves T) -> In y (uleaves T) -> x <> y -> (d x y == lcah T x y)%Q) ->
+    exists t, upgma_tree n d = Some t /\
+      forall e, In e (pairdists t) -> fst (fst e) <> snd (fst e) ->
+        (snd e == d (fst (fst e)) (snd (fst e)))%Q.
+Proof. exact upgma_recovers_pathsums. Qed.
+Print Assumptions C09_upgma_recovers_pathsums.
 
 Example C09_upgma_recovers_nonvacuous :
   let T := UNode 2 (UNode (1#2) (ULeaf 0) (ULeaf 2)) (UNode 1 (ULeaf 3) (UNode (1#2) (ULeaf 1) (ULeaf 4))) in
